@@ -17,7 +17,10 @@ RULE = (
     "Oracle: (i) the fingerprint of every step's result equals the fingerprint of the same closed recipe evaluated ALONE in a fresh "
     "interpreter; (ii) after every step the fingerprint of every live object equals the one recorded at its creation; (iii) a step raises "
     "only if the fresh run raises. Non-trivial = some live object is re-used by >=2 operations of which one is an algorithm / oraclize / "
-    "defs / export, or the pool contains a name clash; distinct by canonical JSON of the case"
+    "defs / export, or the pool contains a name clash; distinct by canonical JSON of the case. Enumerated part: for EVERY legal function name "
+    "bound in the namespace of an imported qlasskit module (about 200; words of the typed subset itself excluded) a fixed set of operations on "
+    "functions so named (compile, bind x3, use as definition, Grover, oraclize) must give what it gives under a neutral name, be repeatable, "
+    "and leave a fixed battery of unrelated later work (defs, bind, Grover, DJ, qasm, decompile, if-translation) unchanged"
 )
 ASSUMPTIONS = [
     "fingerprints: name, args, returns, srepr of expressions, gate list with parameters, qubit_map in order, qubit lists; exporter text / op list",
@@ -104,7 +107,12 @@ def _reset_library_globals():
     a case that pollutes a module namespace must not make a later, unrelated case fail)"""
     import importlib
 
-    for mn in ("qlasskit.qlassfun", "qlasskit.algorithms.qalgorithm", "qlasskit.algorithms.grover"):
+    import sys
+
+    import qlasskit.algorithms  # noqa: F401
+    import qlasskit.decompiler  # noqa: F401
+
+    for mn in sorted(m for m in sys.modules if m == "qlasskit" or m.startswith("qlasskit.")):
         mod = importlib.import_module(mn)
         if mn not in _SNAP:
             _SNAP[mn] = dict(mod.__dict__)
@@ -115,7 +123,195 @@ def _reset_library_globals():
             mod.__dict__.update(_SNAP[mn])
 
 
+# ---------------------------------------------------------------------------------------------
+# enumerated part: a function NAMED like something living in one of the library's module namespaces
+# ---------------------------------------------------------------------------------------------
+DSL_WORDS = {
+    "Tuple", "List", "Parameter", "Qlist", "Qmatrix", "Qtype", "Qbool", "Qchar", "Qint", "Qfixed", "bool", "int", "float", "len", "max", "min",
+    "abs", "sum", "all", "any", "ord", "chr", "range", "print", "hex", "bin", "True", "False", "None",
+}
+
+
+def clash_names():
+    """every legal python function name bound in the namespace of an imported qlasskit module, minus the words of the
+    typed-python subset itself (type names, typing constructs, supported builtins)"""
+    import keyword
+    import sys
+
+    import qlasskit  # noqa: F401
+    import qlasskit.algorithms  # noqa: F401
+    import qlasskit.decompiler  # noqa: F401
+    import qlasskit.tools  # noqa: F401
+    import qlasskit.types as T
+
+    out = set()
+    for mn in sorted(sys.modules):
+        if mn == "qlasskit" or mn.startswith("qlasskit."):
+            for k, v in list(sys.modules[mn].__dict__.items()):
+                if k.startswith("_") or keyword.iskeyword(k) or not k.isidentifier() or k in DSL_WORDS:
+                    continue
+                if isinstance(v, type) and issubclass(v, T.Qtype):
+                    continue
+                out.add(k)
+    return sorted(out | set(GATE_WORDS))
+
+
+# gate names / words of the export targets (attributes of circuit classes, QASM gate names): legal function names too
+GATE_WORDS = ["h", "x", "y", "z", "s", "t", "cx", "ccx", "swap", "p", "u", "id", "measure", "barrier", "data", "name", "qubits", "gate", "q"]
+
+
+def _battery():
+    """a fixed piece of 'later work' that has nothing to do with the clashing name; -> list of fingerprints"""
+    from qlasskit import qlassf
+    from qlasskit.algorithms import DeutschJozsa, Grover
+    from qlasskit.decompiler import Decompiler
+
+    out = []
+
+    def step(f):
+        try:
+            out.append(json.loads(json.dumps(purity.fingerprint(f()), default=str)))
+        except Exception as e:
+            out.append("raised " + type(e).__name__)
+
+    box = {}
+    step(lambda: box.setdefault("neg", qlassf("def neg(a: bool) -> bool:\n    return not a\n")))
+    step(lambda: qlassf("def caller(a: bool, b: bool) -> bool:\n    return neg(a) and b\n", defs=[box["neg"]]))
+    step(lambda: box.setdefault("u", qlassf("def pw(p: Parameter[Qint[2]], a: Qint[2]) -> Qint[2]:\n    return a + p\n")).bind(p=1))
+    step(lambda: box["u"].bind(p=2))
+    step(lambda: box.setdefault("pr", qlassf("def pred(a: Qint[2]) -> bool:\n    return a == 2\n")))
+    step(lambda: Grover(box["pr"]))
+    step(lambda: DeutschJozsa(box["pr"]))
+    step(lambda: box["pr"].circuit().export("circuit", "qasm"))
+    step(lambda: Decompiler().decompile(box["pr"].circuit()))
+    step(lambda: qlassf("def ifs(a: Qint[2], b: bool) -> Qint[2]:\n    if b:\n        a += 1\n    else:\n        a = a ^ 3\n    return a\n"))
+    return out
+
+
+def _clash_ops(name, full=False):
+    """operations on functions called `name`; -> list of fingerprints with every name field removed
+    (full: plus the textual exports, which contain the name)"""
+    from qlasskit import qlassf
+    from qlasskit.algorithms import Grover, oraclize
+
+    out = []
+    texts = []
+    box = {}
+
+    def strip_names(x):
+        if isinstance(x, dict):
+            return {k: strip_names(v) for k, v in x.items() if k != "name"}
+        if isinstance(x, list):
+            return [strip_names(v) for v in x]
+        return x
+
+    def step(f):
+        try:
+            out.append(strip_names(json.loads(json.dumps(purity.fingerprint(f()), default=str))))
+        except Exception as e:
+            out.append("raised " + type(e).__name__)
+
+    step(lambda: box.setdefault("plain", qlassf(f"def {name}(a: bool, b: bool) -> bool:\n    return a and not b\n")))
+    step(lambda: box.setdefault("u", qlassf(f"def {name}(c: Parameter[bool], a: bool, b: bool) -> bool:\n    return (a and c) ^ b\n")).bind(c=True))
+    step(lambda: box["u"].bind(c=False))
+    step(lambda: box["u"].bind(c=True))
+    step(lambda: qlassf(f"def caller2(a: bool, b: bool) -> bool:\n    return {name}(a, b) or a\n", defs=[box["plain"]]))
+    step(lambda: box.setdefault("pr", qlassf(f"def {name}(a: Qint[2]) -> bool:\n    return a == 1\n")))
+    step(lambda: Grover(box["pr"]))
+    step(lambda: oraclize(qlassf(f"def {name}(a: Qint[2]) -> Qint[2]:\n    return a + 1\n"), 2))
+    step(lambda: box["plain"])
+    step(lambda: box["u"].bind(c=True))
+    # exports of the function so named; the function object itself must stay what it was (name included)
+    fp0 = json.dumps(purity.fingerprint(box["plain"]), default=str) if "plain" in box else None
+    for fw, mode in (("qiskit", "gate"), ("qiskit", "circuit"), ("qasm", "gate"), ("qasm", "circuit"), ("sympy", "circuit"), ("cirq", "circuit"), ("qiskit", "gate")):
+        def ex(fw=fw, mode=mode):
+            x = box["plain"]
+            if fw == "qasm":
+                return x.circuit().export(mode, "qasm")
+            if mode == "gate":
+                g = x.gate(fw)
+                return ("qiskit-gate", g.num_qubits, [(i.operation.name, [g.definition.find_bit(q).index for q in i.qubits]) for i in g.definition.data])
+            return str(x.export(fw)) if fw != "qiskit" else x.export(fw)
+        if fw in ("qasm", "cirq"):
+            # the text contains the function's name: judged for repeatability only
+            try:
+                texts.append(str(ex()))
+            except Exception as e:
+                texts.append("raised " + type(e).__name__)
+        else:
+            step(ex)
+        if fp0 is not None:
+            out.append({"frame": "unchanged"} if json.dumps(purity.fingerprint(box["plain"]), default=str) == fp0 else {"frame": "function object changed by export " + fw + ":" + mode})
+    return out + [{"texts": texts}] if full else out
+
+
+NEUTRAL = "zz_fn"
+
+
+def judge_clash(case):
+    name = case["clash"]
+    feats = ["clash-sweep"]
+    D = {"function_name": name}
+    try:
+        with progeval.time_limit(100):
+            _reset_library_globals()
+            ref_ops = _clash_ops(NEUTRAL)
+            _reset_library_globals()
+            before = _battery()
+            got_full = _clash_ops(name, full=True)
+            got_ops = got_full[:-1]
+            after = _battery()
+            again = _clash_ops(name, full=True)
+    except progeval.Timeout:
+        return {"status": "skip", "nontrivial": False, "features": feats + ["timeout"]}
+    finally:
+        _reset_library_globals()
+    if any(isinstance(x, str) for x in ref_ops + before):
+        return {"status": "skip", "nontrivial": False, "features": feats + ["reference-raises"], "detail": str([x for x in ref_ops + before if isinstance(x, str)])}
+    for i, (a, b) in enumerate(zip(got_ops, ref_ops)):
+        if a != b:
+            return {"status": "violation", "kind": "clashing-name-changes-result", "detail": dict(D, step=i, with_name=json.dumps(a)[:300], with_neutral_name=json.dumps(b)[:300]), "features": feats}
+    for i, (a, b) in enumerate(zip(after, before)):
+        if a != b:
+            return {"status": "violation", "kind": "later-work-differs-after-clashing-name", "detail": dict(D, step=i, after=json.dumps(a)[:300], before=json.dumps(b)[:300]), "features": feats}
+    for i, (a, b) in enumerate(zip(again, got_full)):
+        if a != b:
+            return {"status": "violation", "kind": "clashing-name-not-repeatable", "detail": dict(D, step=i, second=json.dumps(a)[:300], first=json.dumps(b)[:300]), "features": feats}
+    return {"status": "ok", "nontrivial": True, "features": feats, "rows": len(before) + 2 * len(got_ops)}
+
+
+def _run_clash(case):
+    import traceback
+
+    try:
+        return {"case": case, "res": judge(case)}
+    except Exception:
+        return {"case": case, "error": traceback.format_exc()}
+
+
+def exhaustive(tier, pool):
+    cases = [{"clash": n} for n in clash_names()]
+    results = pool.map(_run_clash, cases, chunksize=2)
+    keys, viol, feats, samples = [], [], {}, []
+    for r in results:
+        if "error" in r:
+            raise RuntimeError("enumerated case crashed: " + r["error"] + "\n" + str(r["case"]))
+        res = r["res"]
+        for f in res.get("features", ()):
+            feats[f] = feats.get(f, 0) + 1
+        feats["clash:" + res["status"]] = feats.get("clash:" + res["status"], 0) + 1
+        if res["status"] == "ok":
+            keys.append("clash:" + r["case"]["clash"])
+            if len(samples) < 2:
+                samples.append(r["case"])
+        if res["status"] == "violation" and res["kind"] not in [v[0] for v in viol]:
+            viol.append((res["kind"], r["case"], res.get("detail")))
+    return {"evaluations": len(cases), "keys": keys, "samples": samples, "violations": viol, "features": feats, "exhaustive": False}
+
+
 def judge(case):  # noqa: C901
+    if "clash" in case:
+        return judge_clash(case)
     _reset_library_globals()
     feats = []
     srcs = []
